@@ -156,11 +156,11 @@ Proof.
       * right; right. rewrite last_app_ne by discriminate. reflexivity.
   - intros H x Hx.
     assert (Q : exists n1, (if is_depot (nd nw first) then Ok (first :: rest)
-                 else do d <- find_best_start_depot nw (s_usage s) ty first; Ok (d :: first :: rest)) = Ok n1 /\
+                 else do d <- find_best_start_depot_res nw (s_usage s) ty first; Ok (d :: first :: rest)) = Ok n1 /\
                  n1 <> [] /\ forall z, In z n1 -> In z (first :: rest) \/ z = hd d0 n1).
     { destruct (is_depot (nd nw first)).
       - eexists; split; [reflexivity|]. split; [discriminate|]. intros z Hz; left; exact Hz.
-      - destruct (find_best_start_depot nw (s_usage s) ty first) as [d| | |]; cbn [bind] in H; try discriminate H.
+      - destruct (find_best_start_depot_res nw (s_usage s) ty first) as [d| | |]; cbn [bind] in H; try discriminate H.
         eexists; split; [reflexivity|]. split; [discriminate|]. intros z [<-|Hz]; [right; reflexivity|left; exact Hz]. }
     destruct Q as (n1 & Q1 & Q2 & Q3). rewrite Q1 in H. cbn [bind] in H.
     destruct (is_depot (nd nw (last (first :: rest) first))).
